@@ -733,8 +733,11 @@ class ServerProxy(XMLServerProxy):
         >>> # Here old headers are restored
         """
         self.__transport.push_headers(headers)
-        yield self
-        self.__transport.pop_headers(headers)
+        try:
+            yield self
+        finally:
+            # Restore old headers, even if the block raised an exception
+            self.__transport.pop_headers(headers)
 
 
 # ------------------------------------------------------------------------------
